@@ -117,7 +117,7 @@ type Case struct {
 	Kind    string   `json:"kind"` // eof | err | half
 	Flights []Flight `json:"flights,omitempty"`
 	Order   []int    `json:"order,omitempty"` // release order of the parked flights (indices into Flights)
-	Sched   string   `json:"sched,omitempty"` // closefirst | respfirst | mid | slowdestroy
+	Sched   string   `json:"sched,omitempty"` // closefirst | respfirst | mid | slowdestroy | slowclosed
 	// Burst: that many further independent requests (clones of / failing walks
 	// from a valid fid to fresh fid numbers) are written in one piece right
 	// before the cut, so they execute while the disconnect is handled.
@@ -436,7 +436,7 @@ func genConfig(t *rapid.T) *Case {
 		Auth:    rapid.IntRange(0, 3).Draw(t, "auth") == 0,
 		Maxpend: rapid.SampledFrom([]int{0, 16}).Draw(t, "maxpend"),
 		Kind:    rapid.SampledFrom([]string{"eof", "eof", "err", "err", "half"}).Draw(t, "cutkind"),
-		Sched:   rapid.SampledFrom([]string{"closefirst", "closefirst", "respfirst", "mid", "slowdestroy", "slowdestroy"}).Draw(t, "sched"),
+		Sched:   rapid.SampledFrom([]string{"closefirst", "closefirst", "respfirst", "mid", "slowdestroy", "slowdestroy", "slowclosed"}).Draw(t, "sched"),
 	}
 }
 
@@ -570,6 +570,30 @@ func TestPropDisconnect(t *testing.T) {
 	})
 }
 
+// TestPropBurst: the disconnect races with a burst of independent requests
+// whose replies are being handed to the writer (20..200 walks written in one
+// piece right before the cut, on a short history, at most one further request
+// parked): which of them have finished, are being answered or have not started
+// when the writer stops is left to the scheduler, so the class is drawn often.
+func TestPropBurst(t *testing.T) {
+	if hx.IsKnown(FindCloseVsInflight) || hx.IsKnown(FindRespondBlocks) {
+		return // (steered around in TestPropDisconnect as well)
+	}
+	hx.Check(t, "burst", hx.N(40, 400), func(t *rapid.T) {
+		c := genConfig(t)
+		c.History = []Act{{Kind: "attach", Fid: 0, Afid: ref9p.NOFID, User: "alice"}}
+		if rapid.Bool().Draw(t, "prime2") {
+			c.History = append(c.History, Act{Kind: "walk", Fid: 0, Newfid: 1, Names: []string{"f1"}}, Act{Kind: "open", Fid: 1, Mode: 2})
+		}
+		c.Cut = streamLen(c.frames())
+		genFlights(t, c, 1, false)
+		c.Burst = rapid.IntRange(20, 200).Draw(t, "burst")
+		if err := execute("burst", c); err != nil {
+			hx.Failf(t, "burst", c, "%v", err)
+		}
+	})
+}
+
 // TestEnumPrefixes: for a drawn history, disconnect after EVERY prefix of its
 // byte stream (all frame boundaries and all mid-frame offsets), by EOF and by
 // error, with the drawn set of requests executing at that moment.
@@ -655,7 +679,7 @@ func TestEnumOrders(t *testing.T) {
 	for _, sel := range sels {
 		for _, mp := range []int{0, 16} {
 			for _, kind := range []string{"eof", "err"} {
-				for _, sc := range []string{"closefirst", "respfirst", "mid", "slowdestroy"} {
+				for _, sc := range []string{"closefirst", "respfirst", "mid", "slowdestroy", "slowclosed"} {
 					idx++
 					if hx.NShards > 1 && idx%hx.NShards != hx.Shard {
 						continue
@@ -682,7 +706,7 @@ func TestEnumOrders(t *testing.T) {
 		}
 	}
 	if hx.Thorough() {
-		hx.Exhaustive("every ordered selection of 0..3 of 7 menu requests (clunk, remove, stat, full walk, failing walk, attach, late attach) parked at the cut = every held set x every release order, plus all 24 orders of one set of 4, x Maxpend {0,16} x {EOF, error} x 4 schedules")
+		hx.Exhaustive("every ordered selection of 0..3 of 7 menu requests (clunk, remove, stat, full walk, failing walk, attach, late attach) parked at the cut = every held set x every release order, plus all 24 orders of one set of 4, x Maxpend {0,16} x {EOF, error} x 5 schedules")
 	}
 }
 
